@@ -705,7 +705,7 @@ func c18Configs(tier string) []C18Cfg {
 	for _, p := range [][]string{{"W0", "Ver2"}, {"R", "Ver2"}, {"Ver2", "Rm1"}, {"Ver2", "Mon0"}, {"Ver2", "Rm2"}, {"Ver2", "Mon2"}, {"Snap", "Ver2"}} {
 		add("rw2wo", p...)
 	}
-	for _, p := range [][]string{{"W0", "Add2"}, {"R", "Add2"}, {"Add2", "Rm1"}, {"Add2", "Mon0"}, {"Add2", "Add3"}, {"Snap", "Add2"}} {
+	for _, p := range [][]string{{"W0", "Add2"}, {"R", "Add2"}, {"Add2", "Rm1"}, {"Add2", "Mon0"}, {"Add2", "Add3"}, {"Add2", "Add2"}, {"Snap", "Add2"}} {
 		add("rw2", p...)
 	}
 	if tier == "thorough" {
